@@ -15,6 +15,10 @@ package composition
 //@ func (*composition.Reconciler).Reconcile
 //@ props C12
 //@ ghost created bool = false
+// a revision write that failed (adoption, renumbering, creation) never ends in a quiet success:
+// the reconcile reports the error or asks to be requeued, so the numbering is retried
+//@ ghost writeFailed bool = false
+//@ ensures [C12:a-failed-revision-write-is-retried] writeFailed ==> (err != nil || result.Requeue)
 //@ site v1.IsControlledBy($r, _) as iteration-start
 //@   assert [C12:listed-revision-bounded] $r == &rl.Items[i] && (OURS($r) ==> as($r, *v1.CompositionRevision).Spec.Revision <= latestRev + 1)
 //@   bind $before = as($r, *v1.CompositionRevision).Spec.Revision
@@ -27,6 +31,7 @@ package composition
 //@   witness rev[j<6] = rl.Items[j].Spec.Revision
 //@   witness controlled[j<6] = metav1.GetControllerOf(&rl.Items[j]) != nil && metav1.GetControllerOf(&rl.Items[j]).UID == comp.GetUID()
 //@   witness orphan[j<6] = metav1.GetControllerOf(&rl.Items[j]) == nil
+//@   invariant [C12:no-failed-write-so-far] !writeFailed
 //@   invariant [C12:latest-bounds-our-revisions] forall j :: 0 <= j && j < len(rl.Items) && OURS(&rl.Items[j]) ==> rl.Items[j].Spec.Revision <= latestRev + 1
 //@ site (client.Writer).Update(_, _, $o)
 //@   witness n = len(rl.Items)
@@ -37,6 +42,7 @@ package composition
 //@   witness orphan[j<6] = metav1.GetControllerOf(&rl.Items[j]) == nil
 //@   witness newrev = as($o, *v1.CompositionRevision).Spec.Revision
 //@   witness before = $before
+//@   update writeFailed = writeFailed || err != nil
 //@   assert [C12:updates-listed-revision] $o == &rl.Items[i]
 //@   assert [C12:numbers-never-shrink] as($o, *v1.CompositionRevision).Spec.Revision >= $before
 //@   assert [C12:renumbered-revision-is-highest] as($o, *v1.CompositionRevision).Spec.Revision != $before ==>
@@ -45,3 +51,4 @@ package composition
 //@   assert [C12:create-only-when-content-is-new] !(existingRev > 0) && !created
 //@   assert [C12:new-revision-is-highest] forall j :: 0 <= j && j < len(rl.Items) && OURS(&rl.Items[j]) ==> rl.Items[j].Spec.Revision <= as($o, *v1.CompositionRevision).Spec.Revision
 //@   update created = true
+//@   update writeFailed = writeFailed || err != nil
